@@ -116,8 +116,35 @@ Fixpoint rds_remove (t : Z) (rds : list (Z * list Z)) : list (Z * list Z) :=
   | (t', x) :: r => if t' =? t then r else (t', x) :: rds_remove t r
   end.
 
+(* rdataset keys: a type id t < sigBase is the rdtype itself (covers NONE); sigBase + c is
+   RRSIG covering c *)
+Definition sigBase := 1000000.
+Definition tCNAME := 5.
+Definition base_type (t : Z) : Z := if t >=? sigBase then t - sigBase else t.
+
+(* dns.node.NodeKind.classify: 2 = CNAME (CNAME, RRSIG(CNAME)); 1 = NEUTRAL (NSEC, NSEC3, KEY and
+   their RRSIGs); 0 = REGULAR ("other data") *)
+Definition kind (t : Z) : Z :=
+  let b := base_type t in
+  if b =? tCNAME then 2
+  else if (b =? 47) || (b =? 50) || (b =? 25) then 1
+  else 0.
+
+(* Node._append_rdataset: a CNAME evicts the other data, other data evicts a CNAME *)
+Definition rds_append (t : Z) (x : list Z) (rds : list (Z * list Z)) : list (Z * list Z) :=
+  match rds with
+  | [] => [(t, x)]
+  | _ =>
+      (if kind t =? 2 then filter (fun r => negb (kind (fst r) =? 0)) rds
+       else if kind t =? 0 then filter (fun r => negb (kind (fst r) =? 2)) rds
+       else rds) ++ [(t, x)]
+  end.
+
 (* Node.replace_rdataset: delete the old one, append the new one *)
-Definition rds_replace (t : Z) (x : list Z) (rds : list (Z * list Z)) := rds_remove t rds ++ [(t, x)].
+Definition rds_replace (t : Z) (x : list Z) (rds : list (Z * list Z)) := rds_append t x (rds_remove t rds).
+
+(* dns.rdatatype.is_singleton: SOA, NXT, DNAME, NSEC, CNAME *)
+Definition singleton (t : Z) : bool := (t =? 6) || (t =? 30) || (t =? 39) || (t =? 47) || (t =? 5).
 
 Definition has_ns (nd : node) : bool := match rds_get tNS (nrds nd) with Some _ => true | None => false end.
 
@@ -125,6 +152,9 @@ Definition zmem (x : Z) (l : list Z) : bool := existsb (Z.eqb x) l.
 (* dns.set.Set.union / difference on rdata ids (first-insertion order) *)
 Definition ids_union (a b : list Z) : list Z := fold_left (fun acc x => if zmem x acc then acc else acc ++ [x]) b a.
 Definition ids_diff (a b : list Z) : list Z := filter (fun x => negb (zmem x b)) a.
+(* Rdataset.union: every add() to a singleton type clears the set first *)
+Definition rd_union (t : Z) (a b : list Z) : list Z :=
+  if singleton t then match rev b with [] => a | y :: _ => [y] end else ids_union a b.
 
 (* ---------- the specification, from the documentation ---------- *)
 Definition is_apex (c : cfg) (n : name) : bool :=
@@ -299,7 +329,12 @@ Definition put_rdataset (c : cfg) (v : ver) (n : name) (t : Z) (x : list Z) : ve
         (update_glue_flag (mkVer (v_nodes v2) (al_set n tt (v_delegs v2)) (v_changed v2)) n true, nd2)
       else (v2, nd2)
     else (v1, nd) in
-  mkVer (al_update n (mkNode (nflags nd2) (rds_replace t x (nrds nd2))) (v_nodes v2)) (v_delegs v2) (v_changed v2).
+  let nd3 := mkNode (nflags nd2) (rds_replace t x (nrds nd2)) in
+  if negb (Z.land (nflags nd3) fDELEGATION =? 0) && negb (has_ns nd3) then
+    (* a CNAME evicted the NS rdataset of a delegation point *)
+    let nd4 := mkNode (Z.land (nflags nd3) (Z.lnot fDELEGATION)) (nrds nd3) in
+    update_glue_flag (mkVer (al_update n nd4 (v_nodes v2)) (al_discard n (v_delegs v2)) (v_changed v2)) n false
+  else mkVer (al_update n nd3 (v_nodes v2)) (v_delegs v2) (v_changed v2).
 
 (* WritableVersion.delete_rdataset (n validated) *)
 Definition delete_rdataset (c : cfg) (v : ver) (n : name) (t : Z) : res ver :=
@@ -354,7 +389,7 @@ Definition dispatch (c : cfg) (v : ver) (o : top) : res (list vop) :=
   | TAdd n t x =>
       do n' <- validate_name c n;
       match get_rdataset v n' t with
-      | Some ex => Ok [VPut n' t (ids_union ex x)]
+      | Some ex => Ok [VPut n' t (rd_union t ex x)]
       | None => Ok [VPut n' t x]
       end
   | TReplace n t x => do n' <- validate_name c n; Ok [VPut n' t x]
